@@ -35,6 +35,13 @@ class AbstractExcelInPython(ABC):
     def get_sheets_size(self) -> List[Dict[str, int]]:
         return self._sheets_size
 
+    @staticmethod
+    def _at_midnight(value: Any) -> Any:
+        # a date-only value (a workbook that stores dates in ISO 8601 form, an override with datetime.date) is the date-time at its midnight
+        if isinstance(value, datetime.date) and not isinstance(value, datetime.datetime):
+            return datetime.datetime(value.year, value.month, value.day)
+        return value
+
     def _parse_date_obj(self, date: str | datetime.datetime) -> datetime.datetime | None:
         if isinstance(date, datetime.datetime):
             return date
@@ -414,6 +421,7 @@ class AbstractExcelInPython(ABC):
 
     def _datedif(self, date_start: datetime.datetime, date_end: datetime.datetime,
                  mode: Literal['Y', 'M', 'D', 'MD', 'YM', 'YD']):
+        date_start, date_end = self._at_midnight(date_start), self._at_midnight(date_end)
         if (not isinstance(date_start, datetime.datetime) or not isinstance(date_end, datetime.datetime)):
             return "#VALUE!"
         if date_start > date_end:
@@ -447,6 +455,7 @@ class AbstractExcelInPython(ABC):
 
     def _eomonth(self, start_date: datetime.datetime, months: float | int):
         # Note: If months is not an integer, it is truncated.
+        start_date = self._at_midnight(start_date)
         if not isinstance(start_date, datetime.datetime):
             return '#NUM!'
         result_date = start_date + relativedelta(months=trunc(months))
@@ -454,6 +463,7 @@ class AbstractExcelInPython(ABC):
         return datetime.datetime(result_date.year, result_date.month, last_day_num)
 
     def _edate(self, start_date: datetime.datetime, months: float):
+        start_date = self._at_midnight(start_date)
         if not isinstance(start_date, datetime.datetime):
             return '#VALUE!'
         if not isinstance(months, (int, float)):
@@ -820,6 +830,7 @@ class AbstractExcelInPython(ABC):
     def _network_days(self, date_start: datetime.datetime, date_end: datetime.datetime,
                       holidays: List[List[datetime.datetime]] | None = None):
         # Большая загадка как вычисляется значение если на входе не даты - поэтому я решила просто кидать '#VALUE!'
+        date_start, date_end = self._at_midnight(date_start), self._at_midnight(date_end)
         if not isinstance(date_start, datetime.datetime) or not isinstance(date_end, datetime.datetime):
             return '#VALUE!'
 
@@ -836,7 +847,7 @@ class AbstractExcelInPython(ABC):
         additional_days = []
         if holidays:
             for row in holidays:
-                additional_days_in_row = [day.date() for day in row if isinstance(day, datetime.datetime)] \
+                additional_days_in_row = [self._at_midnight(day).date() for day in row if isinstance(day, datetime.date)] \
                     if row is not None else []
                 additional_days += additional_days_in_row
 
